@@ -312,6 +312,10 @@ StringDictionaryHTFC::StringDictionaryHTFC(IteratorDictString *it,
 
   table = builder->getTable();
   delete builder;
+
+  // The coder also decodes: give it the table, as load() does
+  delete coder;
+  coder = new StatCoder(table, codewords);
 }
 
 unsigned long StringDictionaryHTFC::locate(uchar *str, uint strLen) {
